@@ -47,8 +47,8 @@ fn restrict(c: &mut Class) {
 
 /// One class body named `name`: generated from the whole format with references drawn from `pool`, plus anchor
 /// methods whose descriptors mention pool classes (candidates for enclosing methods) and a few direct references.
-pub fn gen_body(rng: &mut Rng, name: &str, pool: &[String]) -> Class {
-    let cfg = gen::GenCfg { max_fields: 3, max_methods: 3, max_insns: 14, class_pool: pool.iter().map(|s| JS::new(s)).collect(), param_annotations: false, unknown_attrs: false, modules: false, major: None, frames: true, two_slot_constants: true };
+pub fn gen_body(rng: &mut Rng, name: &str, pool: &[String], lean: bool) -> Class {
+    let cfg = gen::GenCfg { max_fields: if lean { 1 } else { 3 }, max_methods: if lean { 1 } else { 3 }, max_insns: if lean { 6 } else { 14 }, class_pool: pool.iter().map(|s| JS::new(s)).collect(), param_annotations: false, unknown_attrs: false, modules: false, major: None, frames: true, two_slot_constants: true };
     let mut c = gen::gen_class(rng, &cfg);
     restrict(&mut c);
     c.this_class = JS::new(name);
